@@ -33,7 +33,8 @@ OnSpawn ==
 OnKillCall ==
     /\ (Ev.e = "KillCall")
     /\ killAimed' = killAimed \cup {Ev.a}
-    /\ UNCHANGED <<bad, parent, spawned, killedEv, notified, states, zombies, tainted>>
+    /\ tainted' = TRUE
+    /\ UNCHANGED <<bad, parent, spawned, killedEv, notified, states, zombies>>
 OnEvKilled ==
     /\ (Ev.e = "EvKilled")
     /\ killedEv' = killedEv \cup {Ev.a}
@@ -61,7 +62,21 @@ OnQBegin ==
 OnAState ==
     /\ (Ev.e = "AState")
     /\ states' = Put(states, Ev.a, Ev.s)
-    /\ UNCHANGED <<bad, parent, spawned, killedEv, notified, killAimed, zombies, tainted>>
+    /\ bad' = IF Ev.s = "gone" /\ Ev.k # "0/0" THEN Flag("NoSubscriptionsLeft") ELSE bad
+    /\ UNCHANGED <<parent, spawned, killedEv, notified, killAimed, zombies, tainted>>
+\* a Watch issued while nothing has been killed or has failed yet is certainly registered before the target can die
+OnWatch ==
+    /\ (Ev.e = "Watch")
+    /\ notified' = IF ~tainted THEN Put(notified, <<"w", Ev.p, Ev.a>>, 1) ELSE notified
+    /\ UNCHANGED <<bad, parent, spawned, killedEv, killAimed, states, zombies, tainted>>
+OnUnwatch ==
+    /\ (Ev.e = "Unwatch")
+    /\ notified' = [key \in DOMAIN notified \ {<<"w", Ev.p, Ev.a>>} |-> notified[key]]
+    /\ UNCHANGED <<bad, parent, spawned, killedEv, killAimed, states, zombies, tainted>>
+OnFail ==
+    /\ (Ev.e = "Fail")
+    /\ tainted' = TRUE
+    /\ UNCHANGED <<bad, parent, spawned, killedEv, notified, killAimed, states, zombies>>
 OnQEnd ==
     /\ (Ev.e = "QEnd")
     /\ LET RECURSIVE Anc(_) Anc(x) == IF x \notin DOMAIN parent \/ parent[x] = "root" THEN {} ELSE {parent[x]} \cup Anc(parent[x])
@@ -71,7 +86,12 @@ OnQEnd ==
            untold == {c \in killedEv : /\ Get(parent, c, "root") # "root"
                                         /\ Get(parent, c, "root") \notin zombies
                                         /\ Get(notified, <<parent[c], c>>, 0) # 1}
-       IN bad' = IF \E x \in doomed : Get(states, x, "gone") # "gone" THEN Flag("WholeSubtreeGone")
+           \* safely registered watchers of a terminated actor that are still alive have been told exactly once
+           unwatched == {key \in DOMAIN notified : /\ Len(key) = 3 /\ key[1] = "w" /\ key[3] \in killedEv
+                                                     /\ key[2] \notin killedEv /\ key[2] \notin zombies
+                                                     /\ Get(notified, <<key[2], key[3]>>, 0) # 1}
+       IN bad' = IF unwatched # {} THEN Flag("WatcherNotifiedOnce")
+                  ELSE IF \E x \in doomed : Get(states, x, "gone") # "gone" THEN Flag("WholeSubtreeGone")
                   ELSE IF \E x \in killedEv : Get(states, x, "gone") # "gone" THEN Flag("PathReleased")
                   ELSE IF untold # {} THEN Flag("ParentNotifiedOnce")
                   ELSE bad
@@ -81,8 +101,8 @@ OnFind ==
     /\ bad' = IF Ev.v = 1 /\ Ev.a \in killedEv THEN Flag("PathReleased") ELSE bad
     /\ UNCHANGED <<parent, spawned, killedEv, notified, killAimed, states, zombies, tainted>>
 OnReset == Ev.e = "Reset" /\ FreshNext /\ UNCHANGED bad
-OnOther == Ev.e \notin {"Spawn", "KillCall", "EvKilled", "Deliv", "Hook", "QBegin", "AState", "QEnd", "Find", "Reset"} /\ UNCHANGED <<bad, parent, spawned, killedEv, notified, killAimed, states, zombies, tainted>>
-Next == l <= Len(TLog) /\ l' = l + 1 /\ (OnSpawn \/ OnKillCall \/ OnEvKilled \/ OnDeliv \/ OnHook \/ OnQBegin \/ OnAState \/ OnQEnd \/ OnFind \/ OnReset \/ OnOther)
+OnOther == Ev.e \notin {"Spawn", "KillCall", "EvKilled", "Deliv", "Hook", "QBegin", "AState", "QEnd", "Find", "Watch", "Unwatch", "Fail", "Reset"} /\ UNCHANGED <<bad, parent, spawned, killedEv, notified, killAimed, states, zombies, tainted>>
+Next == l <= Len(TLog) /\ l' = l + 1 /\ (OnWatch \/ OnUnwatch \/ OnFail \/ OnSpawn \/ OnKillCall \/ OnEvKilled \/ OnDeliv \/ OnHook \/ OnQBegin \/ OnAState \/ OnQEnd \/ OnFind \/ OnReset \/ OnOther)
 Spec == Init /\ [][Next]_vars
 
 Ok == bad = ""
